@@ -14,6 +14,7 @@ pub mod c14;
 pub mod c16;
 pub mod c17;
 pub mod c18;
+pub mod c19;
 pub mod util;
 
 pub fn dispatch(id: &str, args: &Args) -> Option<Report> {
@@ -30,6 +31,7 @@ pub fn dispatch(id: &str, args: &Args) -> Option<Report> {
         "C16" => c16::run(args),
         "C17" => c17::run(args),
         "C18" => c18::run(args),
+        "C19" => c19::run(args),
         _ => return None,
     })
 }
